@@ -121,6 +121,12 @@ pub fn make_parts(spec: &Spec, suite: CipherSuite) -> Result<Parts, String> {
     let log: Log = Arc::new(Mutex::new(Vec::new()));
     let gstore = if spec.storage == "sqlite" {
         VGroupStorage::sqlite(&spec.dir.join(format!("{}.db", spec.name)), spec.retention, ctl.clone())?
+    } else if spec.storage == "sqlite_default" {
+        VGroupStorage::sqlite_default(&spec.dir.join(format!("{}.db", spec.name)), ctl.clone())?
+    } else if spec.storage == "mem_default" {
+        VGroupStorage::mem_default(ctl.clone())?
+    } else if spec.storage == "mem_new" {
+        VGroupStorage::mem_new(ctl.clone())?
     } else {
         VGroupStorage::mem(spec.retention as usize, ctl.clone())?
     };
